@@ -29,7 +29,14 @@ FIXED += [
     ("D17", ["C06"], "fix: ending a subscription unregisters every one of its paths", "multi-path-subscription-stale-after-end",
      "a subscription with two or more paths left all but its last path registered after the RPC ended (aliased prefix slice in addSubscription)"),
 ]
+FIXED += [
+    ("D8", ["C19", "C12"], "fix: value.Equal accepts a nil second operand for double values", "equal-nil-double",
+     "value.Equal(double_val, nil) dereferenced a nil pointer (b.Value instead of b.GetValue())"),
+]
 OPEN = [
+    dict(id="D15", properties=["C19"], status="open", **{"class": "query-elem-edge-slash"}, part="query",
+         what="a client query whose last element ends with '/' loses that element on the way to the server (e.g. [\"/\"] is indexed as []): ygot's string path parser drops the last part of a string ending in '/', even the escaped one pathToString produces; no small safe repair (the string round trip is what parses [k=v] keys)",
+         input={"queries": [["/"]]}),
 ]
 try:
     from tools.known_extra import FIXED as F2, OPEN as O2  # optional extension point
